@@ -9,6 +9,8 @@ Tie (end to end): Acelyzer(["-O", mode]).run() on host slices, (uid -> tid) of t
 Oracle: brute-force statement of the property on the implementation's output (pairwise laminarity per lane,
 only-tid-changed by deep comparison with the input dicts, nothing lost/duplicated, lane injectivity, and
 "no exception when the nesting depth is within the tool's limit").
+The log level (-D 0..4 / aiu_trace_analyzer.logger.loglevel) is part of every case: the result may not depend on it
+(the model has no such parameter).  Deep proper nests (far beyond 5+1 levels) are generated on purpose.
 """
 import contextlib
 import copy
@@ -400,7 +402,7 @@ def deep_nest(r, lo=18, hi=40):
     lane whose nesting depth is far beyond the number of overflow lanes - the tool sets no limit on the depth of a
     proper nest - followed by later slices that cross the end of ONE chosen level (mostly an outer one), touch the
     end of the level below it, or sit in the gap between two ends.  Returns [(s, e)] in ts asc / dur desc order."""
-    D = r.randint(lo, hi)
+    D = r.randint(lo, hi) if r.random() < 0.9 else r.randint(hi + 1, 2 * hi)   # no depth is special
     steps = lambda: r.choice([0, 1, 1, 1, 2, 3])                               # noqa: E731
     starts, x = [], 0
     for _ in range(D):
@@ -758,8 +760,10 @@ def run(ctx):
         "rule": "kernel cases = corpus + all multisets of <= %s intervals on one lane / <= 4 (0..3; <= 3 on 0..4) on two%s lanes of a small "
                 "integer grid (TID with short chains so exhaustion is reached, DROP, zero-length slices) + random "
                 "families (<= 60 events, <= 3 pids, adjacent/interleaved tids, staircases beyond the lane limit, ties, "
-                "touching, instant events mixed in, presorted or raw, max_tid_streams 0..5, dyadic time scales) "
-                "+ end-to-end runs. non-trivial = distinct kernel cases with two ph-X slices on one (pid,tid) that "
+                "touching, instant events mixed in, presorted or raw, max_tid_streams 0..5, dyadic time scales; 6%% deep "
+                "proper nests of 18..80 levels in one lane followed by slices crossing / touching one of the ends) "
+                "+ end-to-end runs (12%% deep nests). The log level varies over 0..4 in every group (logger.loglevel "
+                "in the stage drive, -D end to end); one-lane families of <= 3 intervals on 0..4 run at every level. non-trivial = distinct kernel cases with two ph-X slices on one (pid,tid) that "
                 "partially overlap or share a start or an end (same rule inside Coq over all kernel cases incl. "
                 "duplicates: %s); measured, not copied from evaluations"
                 % (ctx.pick("4 (0..6)", "5 (0..7)"), ctx.pick("", "/three"), extras.get("nt")),
